@@ -514,7 +514,7 @@ def alphabet_op(a, t):
     v = ["v", t]
     table = [
         ["create_search"], ["create_job", 0], ["create_job", 1],
-        ["store_out", JOBS3[0], v], ["store_out", JOBS3[1], {"o": v} if t % 2 else {}], ["store_out", JOBS3[2], None if t % 2 else 0],
+        ["store_out", JOBS3[0], [] if t % 2 else v], ["store_out", JOBS3[1], {"o": v} if t % 2 else {}], ["store_out", JOBS3[2], None if t % 2 else 0],
         ["store_meta", JOBS3[0], "ka", v], ["store_meta", JOBS3[0], "kb", t], ["store_meta", JOBS3[1], "ka", None], ["store_meta", JOBS3[2], "ka", {"n": [t]}],
         ["store_job", JOBS3[0], "ka", v], ["store_job", JOBS3[0], "metadata", t], ["store_job", JOBS3[1], "metadata", {"kb": v}],
         ["store_in", JOBS3[0], {"$t": [t, [t]]}, {"x": t}], ["store_status", JOBS3[2], 1 + t % 5],
